@@ -59,6 +59,8 @@ enum Misbehave {
 	Omit,
 	ForeignId,
 	IncompleteBatch,
+	/// a batch reply with as many entries as the batch in which one answer is given twice and another is missing
+	DupReplacingBatch,
 }
 
 #[derive(Debug, Clone)]
@@ -72,6 +74,10 @@ struct CaseSpec {
 	linger_ms: u64,
 	/// real-time mode (S / TSan): quiescence is approximated by real idle waits, "never completes" is not judged
 	real_time: bool,
+	/// the client pings every so many (virtual) ms: the read task is woken while it is receiving
+	ping_ms: Option<u64>,
+	/// the transport's `receive` takes this long to assemble a message after taking it off the wire (it is not a single await)
+	receive_pieces_ms: Option<u64>,
 }
 
 fn gen_case(seed: u64, real_time: bool) -> CaseSpec {
@@ -95,16 +101,18 @@ fn gen_case(seed: u64, real_time: bool) -> CaseSpec {
 	let misbehave = if real_time {
 		Misbehave::None
 	} else {
-		match r.below(10) {
+		match r.below(11) {
 			0..=5 => Misbehave::None,
 			6 => Misbehave::Duplicate,
 			7 => Misbehave::Omit,
 			8 => Misbehave::ForeignId,
+			9 => Misbehave::DupReplacingBatch,
 			_ => Misbehave::IncompleteBatch,
 		}
 	};
 	let linger_ms = if r.chance(1, 3) { 1 + r.below(6) } else { 0 };
-	CaseSpec { seed, string_ids: r.chance(1, 3), ops, misbehave, delays: r.chance(3, 4), linger_ms, real_time }
+	let (ping_ms, receive_pieces_ms) = if !real_time && r.chance(1, 4) { (Some(1 + r.below(4)), Some(1 + r.below(6))) } else { (None, None) };
+	CaseSpec { seed, string_ids: r.chance(1, 3), ops, misbehave, delays: r.chance(3, 4), linger_ms, real_time, ping_ms, receive_pieces_ms }
 }
 
 /// What the script still owes the client.
@@ -124,6 +132,8 @@ struct CaseOut {
 	history: Vec<String>,
 	misbehaved: bool,
 	collisions: usize,
+	/// receive futures of the transport that were dropped after they had taken a message off the wire (while the client lived)
+	receives_dropped: usize,
 }
 
 async fn run_case(spec: &CaseSpec) -> CaseOut {
@@ -132,7 +142,8 @@ async fn run_case(spec: &CaseSpec) -> CaseOut {
 	if spec.delays && !spec.real_time {
 		install_thread_delay_hook(spec.seed, 70, 8);
 	}
-	let (client, mut srv) = client(ClientCfg { string_ids: spec.string_ids, ..Default::default() });
+	let (client, mut srv) = client(ClientCfg { string_ids: spec.string_ids, ping_interval: spec.ping_ms.map(Duration::from_millis), ..Default::default() });
+	*srv.ctl.receive_in_pieces.lock().unwrap() = spec.receive_pieces_ms.map(Duration::from_millis);
 	if spec.linger_ms > 0 {
 		*srv.ctl.linger_after_send.lock().unwrap() = Some(Duration::from_millis(spec.linger_ms));
 	}
@@ -213,6 +224,7 @@ async fn run_case(spec: &CaseSpec) -> CaseOut {
 	let mut seen = 0usize;
 	let mut live_subs: Vec<(Value, String)> = Vec::new();
 	let mut did_misbehave = false;
+	let mut same_array_duplicates: Vec<(String, u64)> = Vec::new();
 	let mut conn_alive = true;
 	loop {
 		let can_read = seen < expected_msgs;
@@ -354,12 +366,34 @@ async fn run_case(spec: &CaseSpec) -> CaseOut {
 				r.shuffle(&mut entries);
 				let mut parts = Vec::new();
 				let incomplete = spec.misbehave == Misbehave::IncompleteBatch && entries.len() > 1 && r.chance(1, 2);
+				// entry `missing` is not answered, entry `dup` is answered twice instead (the reply keeps its length)
+				let dup_replacing = if spec.misbehave == Misbehave::DupReplacingBatch && entries.len() > 2 && r.chance(2, 3) {
+					let missing = r.usize(entries.len());
+					let dup = (missing + 1 + r.usize(entries.len() - 1)) % entries.len();
+					did_misbehave = true;
+					Some((missing, dup))
+				} else {
+					None
+				};
 				for (k, (id, tag)) in entries.iter().enumerate() {
 					if incomplete && k == 0 {
 						did_misbehave = true;
 						continue;
 					}
+					if let Some((missing, dup)) = dup_replacing {
+						if k == missing {
+							let (did, dtag) = &entries[dup];
+							let p = payload(dtag, did, &mut first_nonce);
+							// two answers for one id inside ONE array: either of them is "the response bearing its id"
+							same_array_duplicates.push((dtag.clone(), p["n"].as_u64().unwrap_or(0)));
+							parts.push(ok_response(did, p));
+							continue;
+						}
+					}
 					let p = payload(tag, id, &mut first_nonce);
+					if dup_replacing.is_some_and(|(_, d)| d == k) {
+						same_array_duplicates.push((tag.clone(), p["n"].as_u64().unwrap_or(0)));
+					}
 					parts.push(if r.chance(1, 5) { err_response(id, 1000, "scripted error", Some(p)) } else { ok_response(id, p) });
 				}
 				for (id, _) in &entries {
@@ -414,7 +448,7 @@ async fn run_case(spec: &CaseSpec) -> CaseOut {
 		}
 		let n = v["n"].as_u64().unwrap_or(0);
 		let firsts: Vec<u64> = first_nonce.iter().filter(|((t, i), _)| t == tag && id_hint.is_none_or(|h| h == i)).map(|(_, n)| *n).collect();
-		if !firsts.contains(&n) {
+		if !firsts.contains(&n) && !same_array_duplicates.iter().any(|(t, m)| t == tag && *m == n) {
 			return Err(format!("payload {v} is not the first answer sent for tag {tag} (first nonces {firsts:?})"));
 		}
 		Ok(())
@@ -529,13 +563,14 @@ async fn run_case(spec: &CaseSpec) -> CaseOut {
 	}
 	out.trace = take_trace();
 	clear_thread_hook();
+	out.receives_dropped = srv.ctl.receives_dropped_midway.load(std::sync::atomic::Ordering::SeqCst);
 	drop(client);
 	out
 }
 
 fn witness(spec: &CaseSpec, o: &CaseOut) -> Value {
 	json!({"seed": spec.seed, "string_ids": spec.string_ids, "ops": format!("{:?}", spec.ops), "misbehave": format!("{:?}", spec.misbehave),
-		"delays": spec.delays, "linger_ms": spec.linger_ms, "history": o.history, "schedule_trace": o.trace})
+		"delays": spec.delays, "linger_ms": spec.linger_ms, "ping_ms": spec.ping_ms, "receive_pieces_ms": spec.receive_pieces_ms, "history": o.history, "schedule_trace": o.trace})
 }
 
 fn record(spec: &CaseSpec, o: CaseOut, ev: &mut Evidence, violations: &mut Vec<Violation>) {
@@ -545,6 +580,10 @@ fn record(spec: &CaseSpec, o: CaseOut, ev: &mut Evidence, violations: &mut Vec<V
 	ev.count("operations_completed", o.completed as u64);
 	ev.count("library_points_reached", o.trace.len() as u64);
 	ev.count(&format!("misbehave_{:?}", spec.misbehave), 1);
+	if spec.ping_ms.is_some() {
+		ev.count("histories_with_pings_and_a_receive_in_several_steps", 1);
+	}
+	ev.count("receive_futures_dropped_after_taking_a_message", o.receives_dropped as u64);
 	ev.count("abandoned_operations", spec.ops.iter().filter(|o| matches!(o, Op::Abandoned { .. })).count() as u64);
 	if o.misbehaved {
 		ev.count("histories_where_the_server_misbehaved", 1);
